@@ -120,6 +120,19 @@ def to_coq(case, obs):
         L.lst(observations), L.q(obs['time']), L.nat(obs['events']), L.nat(obs.get('steps') or 0))
 
 
+def to_coq_all(case, obs):
+    """the sum tie of Tie/CompartAll.v: static-table models, SIvR, SIR_VariableInfection"""
+    if case['model'] == 'SIR_VariableInfection':
+        from harness import compart_vi
+        t = compart_vi.to_coq_vi(case, obs)
+        return None if t is None else '(AVar %s)' % t
+    if case['model'] in IN_COQ_V:
+        t = to_coq_sivr(case, obs)
+        return None if t is None else '(AVacc %s)' % t
+    t = to_coq(case, obs)
+    return None if t is None else '(ABase %s)' % t
+
+
 def to_coq_any(case, obs):
     """C07's tie: base models as CBase, SIvR as CVacc"""
     if case['model'] in IN_COQ_V:
